@@ -26,6 +26,9 @@ func (c *Ctx) successOnlyVia(rule string, fn *ssa.Function, ev Ev, why string) b
 	for _, r := range Returns(fn) {
 		cut.AddEdges(phiNonNilEdges(r)...)
 	}
+	if c.AssumeFalse != "" {
+		cut.AddEdges(HeldEdges(fn, c.AssumeFalse)...)
+	}
 	hit := Reach(fn, nil, nil, anyOf(SuccessReturns(fn)), cut)
 	return c.Check(hit == nil, rule, inst, c.P.Pos(fn.Pos()), "every success return passes "+ev.Name+"✓", "a success return of "+fname(fn)+" is reachable without "+ev.Name+" having succeeded "+strings.Join(notes, ";")+": "+why)
 }
